@@ -284,6 +284,24 @@ def _partition(w, part) -> List[set]:
 def _c06(w, ds, sch, raws, pen, sname, complete, pivot):
     OP = w.proj.cls("corankco.partitioning.ordered_partition", "OrderedPartition")
     best, argmin = oracle.optimum(raws, pen)
+    # whichever algorithm marks its consensus as necessarily optimal: it must be a global minimiser
+    for label, alg, kind in configurations(w):
+        if label.startswith("ParCons") or not _accepts(kind, sname, complete):
+            continue
+        if not label.startswith("Exact") and len(oracle.universe(raws)) > 4:
+            continue            # heuristics never assert optimality (rule P2); they are evaluated on the small datasets only
+        st, c = w.try_compute(alg, ds, sch, True)
+        if st != "ok":
+            continue            # refusals / failures are other properties' business
+        flag = None
+        for k, v in (c.attrs.get("_att") or {}).items():
+            if getattr(k, "member", "") == "NECESSARILY_OPTIMAL":
+                flag = v
+        if flag is True:
+            r = _raw(w, c.attrs["_consensus_rankings"][0])
+            s_ = oracle.score(r, raws, pen)
+            yield f"flagged-optimal:{label}", None if abs(s_ - best) <= EPS else \
+                f"flagged necessarily optimal but {r} scores {s_}, optimum {best}"
     part = _partition(w, w.rt.call_static(OP, "parcons_partition", ds, sch))
     uni = set(oracle.universe(raws))
     flat = [e for g in part for e in g]
